@@ -15,7 +15,7 @@
 Require Import IP.Base.Bytes IP.Codec.Cid.
 Open Scope N_scope.
 
-Definition key := bytes.
+Notation key := (list N) (only parsing).
 
 Inductive errno :=
   | ENOENT | ENOTDIR | EISDIR | EEXIST | ENOTEMPTY | ENAMETOOLONG | EINVAL   (* as the kernel / package os report *)
